@@ -334,6 +334,106 @@ func forcedSet(enc *json.Encoder, scenario int) int {
 	return len(hung)
 }
 
+// controlledVar / controlledSet: every verif yield point and every subscriber callback is a stopping point; a random
+// scheduler releases one parked goroutine at a time whenever the process is quiescent (arrival orders that free running
+// practically never produces: a writer held between its value update and the notification while others write, subscribe
+// and unsubscribe; an unsubscribe arriving between the execution-lock check and the callback; ...).
+func controlled(enc *json.Encoder, rng *rand.Rand, kind string) int {
+	r := newObsRun(kind)
+	r.gate.HoldAll()
+	hive.VerifHook = func(p string) { r.gate.Wait("hook:" + p) }
+	defer func() { hive.VerifHook = nil }()
+	v := hive.NewVariable[int]()
+	set := hive.NewSet[int]()
+	nw, ns := 1+rng.Intn(3), 1+rng.Intn(3)
+	subs := []int{}
+	for w := 1; w <= nw; w++ {
+		w := w
+		rg := rand.New(rand.NewSource(rng.Int63()))
+		r.spawn(100+w, func() {
+			for i := 1; i <= 2; i++ {
+				if kind == "var" {
+					r.write(v, w*1000+i, rg.Intn(2) == 0)
+				} else {
+					x := 1 + rg.Intn(4)
+					switch rg.Intn(4) {
+					case 0:
+						set.Add(x)
+					case 1:
+						set.Delete(x)
+					case 2:
+						set.Replace(ds.NewSet(x, 1+rg.Intn(4)))
+					case 3:
+						set.Apply(ds.NewSetMutations[int]().WithAddedElements(ds.NewSet(x)).WithDeletedElements(ds.NewSet(1 + rg.Intn(4))))
+					}
+				}
+			}
+		})
+	}
+	for s := 1; s <= ns; s++ {
+		s := s
+		subs = append(subs, s)
+		rg := rand.New(rand.NewSource(rng.Int63()))
+		unsubToo := rg.Intn(2) == 0
+		r.spawn(s, func() {
+			var unsub func()
+			if kind == "var" {
+				unsub = r.subscribeVar(v, s, nil)
+			} else {
+				r.lg.add(core.Ev{"op": "subBegin", "s": s})
+				u := set.OnUpdate(func(m ds.SetMutations[int]) {
+					r.lg.add(core.Ev{"op": "cbSet", "s": s, "added": sortedSet(m.AddedElements()), "deleted": sortedSet(m.DeletedElements())})
+					r.gate.Wait(fmt.Sprintf("cb-%d", s))
+					r.lg.add(core.Ev{"op": "cbEnd", "s": s})
+				}, true)
+				r.lg.add(core.Ev{"op": "subEnd", "s": s})
+				unsub = func() {
+					r.lg.add(core.Ev{"op": "unsubBegin", "s": s})
+					u()
+					r.mu.Lock()
+					r.gone[s] = true
+					r.mu.Unlock()
+					r.lg.add(core.Ev{"op": "unsubEnd", "s": s})
+				}
+			}
+			if unsubToo {
+				unsub()
+			}
+		})
+	}
+	allDone := func() bool {
+		r.mu.Lock()
+		defer r.mu.Unlock()
+		for _, ch := range r.threads {
+			select {
+			case <-ch:
+			default:
+				return false
+			}
+		}
+		return true
+	}
+	for step := 0; step < 2000; step++ {
+		sched.QuiesceOpt(50*time.Millisecond, 2, false)
+		pts := r.gate.ParkedPoints()
+		if len(pts) == 0 {
+			if allDone() {
+				break
+			}
+			continue
+		}
+		r.gate.Release(pts[rng.Intn(len(pts))])
+	}
+	r.gate.ReleaseAll()
+	hung := r.wait(5 * time.Second)
+	if kind == "var" {
+		r.emit(enc, core.Ev{"hung": core.Seq(hung), "value": v.Get(), "active": r.active(subs), "contents": []any{}})
+	} else {
+		r.emit(enc, core.Ev{"hung": core.Seq(hung), "value": 0, "active": r.active(subs), "contents": sortedSet(set)})
+	}
+	return len(hung)
+}
+
 func freeEvent(enc *json.Encoder, rng *rand.Rand, tr int) int {
 	r := newObsRun("event")
 	e := hive.NewEvent()
@@ -466,6 +566,7 @@ func reactObs(args []string) int {
 	fs := flag.NewFlagSet("reactobs", flag.ExitOnError)
 	seed := fs.Int64("seed", 1, "")
 	traces := fs.Int("traces", 60, "")
+	ctl := fs.Int("controlled", 40, "runs under the random controlled scheduler")
 	out := fs.String("out", "", "")
 	_ = fs.Parse(args)
 	f, err := os.Create(*out)
@@ -485,6 +586,11 @@ func reactObs(args []string) int {
 	}
 	for sc := 0; sc < 3; sc++ {
 		hangs += forcedSet(enc, sc)
+		n++
+	}
+	runtime.GOMAXPROCS(16)
+	for tr := 0; tr < *ctl; tr++ {
+		hangs += controlled(enc, rng, []string{"var", "set"}[tr%2])
 		n++
 	}
 	for tr := 0; tr < *traces; tr++ {
